@@ -77,9 +77,52 @@ def compare(src: str, out: str, r: Result, what=("stack",), rgba_tol=1.5 / 255, 
                 r.info = None
         except Exception:
             pass
+    # root-cause test for open finding ENGINE-FIXWINDING (skia-pathops Path.simplify(fix_winding=True) turns a correct
+    # raw stroke outline into a wrong region, whereas fix_winding=False keeps the region): convert once more with
+    # picosvg's stroker replaced by a copy that differs in that single flag.  picosvg's own logic is identical in both
+    # conversions, so a mismatch that vanishes can only come from the engine's winding fix-up.  Only while the finding is open.
+    if attribute and strokes and not interference and convert_fn is None and r.violations and all(c in ("stack-differs", "colour-differs") for c, _ in r.violations):
+        try:
+            from vlib.run import open_finding_ids
+
+            if "ENGINE-FIXWINDING" in open_finding_ids():
+                out3 = _convert_without_fix_winding(src)
+                r3 = Result()
+                st3 = _compare(src, out3, r3, what, rgba_tol, strokes, gradients, min_trusted, label)
+                if st3 and not r3.violations and not r3.rejected:
+                    r.violations.clear()
+                    r.excluded = "ENGINE-FIXWINDING"
+                    r.info = None
+        except Exception:
+            pass
     if stats:
         stats.pop("bad_pts", None)
     return stats
+
+
+def _convert_without_fix_winding(svg_text: str) -> str:
+    from picosvg import svg_pathops as sp
+
+    orig = sp.stroke
+
+    def stroke_nofix(svg_cmds, svg_linecap, svg_linejoin, stroke_width, stroke_miterlimit, tolerance, dash_array=(), dash_offset=0.0):
+        cap = sp._SVG_TO_SKIA_LINE_CAP[svg_linecap]
+        join = sp._SVG_TO_SKIA_LINE_JOIN[svg_linejoin]
+        sk_path = sp.skia_path(svg_cmds, fill_rule="nonzero")
+        sk_path.stroke(stroke_width, cap, join, stroke_miterlimit, dash_array, dash_offset)
+        sk_path.convertConicsToQuads(tolerance)
+        backup = sp.pathops.Path(sk_path)
+        try:
+            sk_path.simplify(fix_winding=False)
+        except sp.pathops.PathOpsError:
+            sk_path = backup
+        return sp.svg_commands(sk_path)
+
+    sp.stroke = stroke_nofix
+    try:
+        return convert(svg_text)
+    finally:
+        sp.stroke = orig
 
 
 def _fresh_convert(svg_text: str) -> str:
